@@ -23,7 +23,7 @@ def gen(rng, count, tier):
         has_init = rng.random() < 0.7
         has_exit = rng.random() < 0.8
         calls = []
-        ncalls = rng.choice([2, 3]) if keep else 1
+        ncalls = rng.choice([2, 3]) if keep else rng.choice([1, 1, 2, 3])
         for j in range(ncalls):
             n = rng.choice([0, 1, 2, 5, 12, 20, 40])
             if j > 0 and rng.random() < 0.5:
@@ -40,7 +40,11 @@ def gen(rng, count, tier):
                     'elem': 'scalar', 'params': params, 'base': 1000 * (j + 1), 'init': has_init, 'exit': has_exit}
             if j > 0 and rng.random() < 0.4:
                 call['func'] = 'task_big'       # another function: new map params are shipped to kept-alive workers
+            if not keep:
+                call['want_exit_results'] = True          # every call of such a pool starts (and joins) its own workers
             calls.append(call)
+            if keep and j + 1 < ncalls and rng.random() < 0.35:
+                calls.append({'kind': 'stop_and_join', 'want_exit_results': True})       # a generation ends in the middle of the history
         calls.append({'kind': 'stop_and_join', 'want_exit_results': True})
         sc = {'id': f'i{k}', 'pool': pool, 'calls': calls, 'budget': 60}
         if rng.random() < 0.25:
@@ -68,13 +72,43 @@ def oracle(rec):
         for e in evs:
             if e['k'] == 'exit_value':
                 exit_values[json.dumps(e['value'][:3])] += 1
-    got = res['calls'][-1].get('exit_results')
-    if got is None:
-        return f"get_exit_results failed: {res['calls'][-1].get('exit_results_error')}", n_inst
-    got_c = collections.Counter(json.dumps(v) for v in got)
-    if got_c != exit_values:
-        return (f"get_exit_results returned {sum(got_c.values())} values, worker_exit was invoked {sum(exit_values.values())} "
-                f"times; missing {list((exit_values - got_c).elements())[:2]} extra {list((got_c - exit_values).elements())[:2]}"), n_inst
+    # generations of workers: a new one starts with every call of a pool without keep_alive, and after every stop_and_join
+    keep = rec['scenario']['pool'].get('keep_alive')
+    gen_of_base, g = {}, 0
+    queries = []                     # (index of the op, generation whose exit values get_exit_results() must return)
+    for i, c in enumerate(calls):
+        if 'n' in c:
+            if not keep:
+                g += 1
+            gen_of_base[c['base'] // 1000] = g
+            if c.get('want_exit_results'):
+                queries.append((i, g))
+        elif c['kind'] == 'stop_and_join':
+            if c.get('want_exit_results'):
+                queries.append((i, g))
+            g += 1
+    per_gen = collections.defaultdict(collections.Counter)
+    for tok, evs in S.instances(rec).items():
+        bases = {e['args'][1][0] // 1000 for e in evs if e['k'] == 'task' and isinstance(e.get('args'), list) and e['args'][1]
+                 and isinstance(e['args'][1][0], int)}
+        gens = {gen_of_base[b] for b in bases if b in gen_of_base}
+        if len(gens) != 1:
+            continue
+        for e in evs:
+            if e['k'] == 'exit_value':
+                per_gen[gens.pop() if False else list(gens)[0]][json.dumps(e['value'][:3])] += 1
+    if not has_exit:
+        queries = queries[-1:]
+    for i, g in queries:
+        got = res['calls'][i].get('exit_results')
+        if got is None:
+            return f"get_exit_results failed: {res['calls'][i].get('exit_results_error')}", n_inst
+        got_c = collections.Counter(json.dumps(v) for v in got)
+        want_c = per_gen[g] if has_exit else collections.Counter()
+        if got_c != want_c:
+            return (f"after op {i} ({calls[i]['kind']}): get_exit_results returned {sum(got_c.values())} values, worker_exit was invoked "
+                    f"{sum(want_c.values())} times by the workers started for it (generation {g}); missing "
+                    f"{list((want_c - got_c).elements())[:2]} extra {list((got_c - want_c).elements())[:2]}"), n_inst
     return None, n_inst
 
 
